@@ -195,6 +195,9 @@ def gen_invalid(rng, valid):
             '=SUM((%s)%s)' % (a, b), '=(%s)(%s)' % (a, b), '=SUM(SUM(%s)%s)' % (a, b),
             '=SUM(%s{%s})' % (a, b), '=(A1)B1', '={%s}%s' % (a, b), '=%s\n%s' % (a, b),
             '=SUM(A1:B2 INDEX(C1:D2,1,1),%s)' % a,
+            # a constant followed by ( inside an argument list / an array
+            '=SUM(%s(%s))' % (a, b), '=IF(%s(%s),3,4)' % (a, b), '={%s(%s)}' % ('1', '2'),
+            '=SUM(1,%s(%s+1))' % (a, b),
             '=B2 #DIV/0!+1', '=A1 #n/a', '=%s #NUM!' % a))
     if k == 6:
         return 'ragged-array', rng.choice((
